@@ -186,6 +186,32 @@ impl<'a> Runner<'a> {
             self.exec_step(&mf.join(":"), false);
             return;
         }
+        if st.starts_with("W:") {
+            if self.panicked {
+                return;
+            }
+            let f: Vec<&str> = st.split(':').collect();
+            if f.len() < 7 {
+                return;
+            }
+            let mf: Vec<&str> = std::iter::once("m").chain(f[2..].iter().copied()).collect();
+            self.steps.push(st.to_string());
+            self.out.stat("step:W");
+            if catch_unwind(AssertUnwindSafe(|| self.w.run_pair_mount_first(f[1], &mf))).is_err() {
+                self.panicked = true;
+                if !self.overflow_config() {
+                    let p = self.prop.clone();
+                    self.hit(&p, format!("{}:panic:W", p), format!("step `{}` panicked", st));
+                }
+                return;
+            }
+            // mount first, then the umount that waited for it
+            self.pair_first = true;
+            self.exec_step(&mf.join(":"), false);
+            self.pair_first = false;
+            self.exec_step(&format!("u:{}", f[1]), false);
+            return;
+        }
         if st.starts_with("Z:") {
             if self.panicked {
                 return;
@@ -341,7 +367,7 @@ impl<'a> Runner<'a> {
                     maps.push(m);
                 }
             }
-            if (f[0] == "X" || f[0] == "Z") && f.len() > 4 {
+            if (f[0] == "X" || f[0] == "Z" || f[0] == "W") && f.len() > 4 {
                 if let Some(m) = parse_map(f[4]) {
                     maps.push(m);
                 }
@@ -390,7 +416,10 @@ impl<'a> Runner<'a> {
             if wrapped {
                 self.out.stat("mount:after-wrap");
             }
-            self.crossing_check();
+            // (first half of a `W` step: the real Vfs has already run the umount of the second half)
+            if !self.pair_first {
+                self.crossing_check();
+            }
         } else {
             self.out.stat(&format!("mount:{}", so.res.split('.').next().unwrap_or("")));
             if so.res == "EFsIndex" {
@@ -1257,6 +1286,29 @@ fn gen_case(r: &mut Prng, prop: &str, n: u64, out: &mut Out) -> (String, String,
                     let up = g.r.pick(&lives).clone();
                     let m = g.mount_step(&run.w, prop, None);
                     if up.contains(':') || !m.starts_with("m:") { m } else { format!("X:{}:{}", up, &m[2..]) }
+                }
+                3 if !run.w.live.is_empty() && prop != "C19" => {
+                    // the teardown of one mount racing with a mount that already holds the mount lock
+                    let lives: Vec<String> = run.w.live.values().map(|l| l.path.clone()).collect();
+                    let up = g.r.pick(&lives).clone();
+                    let m = g.mount_step(&run.w, prop, None);
+                    let mpath = m.split(':').nth(1).unwrap_or("").to_string();
+                    // (not the path being mounted, under any spelling: the log of the two halves is
+                    // told apart by backend)
+                    let canon = |p: &str| -> Vec<String> {
+                        let mut v: Vec<String> = vec![];
+                        for c in p.split('/') {
+                            match c {
+                                "" | "." => {}
+                                ".." => {
+                                    v.pop();
+                                }
+                                x => v.push(x.to_string()),
+                            }
+                        }
+                        v
+                    };
+                    if up.contains(':') || !m.starts_with("m:") || canon(&mpath) == canon(&up) { m } else { format!("W:{}:{}", up, &m[2..]) }
                 }
                 0..=17 => g.mount_step(&run.w, prop, None),
                 18..=24 => {
